@@ -453,7 +453,7 @@ the IPv4 name-server address cache (host → addresses). -/
 structure DelegState where
   delegs : List (Str × List IP) := []
   glue4 : List (Str × List IP) := []
-deriving Repr
+deriving Repr, DecidableEq
 
 /-- One referral as `processDelegation` meets it: received from the servers of
 `authZone` at `level`, for `qname`/`qclass`; `subs` = what the sub-pipeline
